@@ -22,7 +22,8 @@ impl AppCounters {
     }
 
     pub(crate) fn update_count(&mut self, df: u32) {
-        *self.df_count.entry(df).or_insert(0) += 1;
+        let count = self.df_count.entry(df).or_insert(0);
+        *count = count.saturating_add(1);
     }
 
     pub(crate) fn reset_cleanup_count(&mut self) {
